@@ -160,6 +160,14 @@ class MoveMemrefDims(RewritePattern):
             if the size is dynamic, the value is returned as an SSAValue
             """
             static_sizes = subview.static_sizes.get_values()
+            # a rank-reducing subview drops unit dimensions: find the size that belongs to dimension `index` of the result
+            result_shape = subview.result.type.get_shape()
+            if len(result_shape) < len(static_sizes):
+                kept: list[int] = []
+                for i, size in enumerate(static_sizes):
+                    if len(kept) < len(result_shape) and size == result_shape[len(kept)]:
+                        kept.append(i)
+                index = kept[index]
             target = static_sizes[index]
             if not target == DYNAMIC_INDEX:
                 assert isinstance(target, int)
